@@ -10,6 +10,7 @@ import Driver.Context
 import Driver.Hist
 import Driver.Legacy
 import Driver.Nlp
+import Driver.C03
 
 namespace Driver
 
@@ -29,6 +30,7 @@ def dispatch (dom : String) (ops : Array String) : Array String :=
   | "hist" => Hist.runCase ops
   | "legacy" => Legacy.runCase ops
   | "nlp" => Nlp.runCase ops
+  | "c03" => C03.runCase ops
   | _ => ops.map (fun _ => "unknown-domain")
 
 end Driver
